@@ -936,8 +936,16 @@ func evalFunctionApplication(node *jparse.FunctionApplicationNode, data reflect.
 	// evaluate it.
 	if f, ok := node.RHS.(*jparse.FunctionCallNode); ok {
 
-		f.Args = append([]jparse.Node{node.LHS}, f.Args...)
-		return evalFunctionCall(f, data, env)
+		// Build a new call node. The parsed expression is shared
+		// by all evaluations and must not be modified.
+		args := make([]jparse.Node, 0, len(f.Args)+1)
+		args = append(args, node.LHS)
+		args = append(args, f.Args...)
+
+		return evalFunctionCall(&jparse.FunctionCallNode{
+			Func: f.Func,
+			Args: args,
+		}, data, env)
 	}
 
 	// Evaluate both sides and return any errors.
